@@ -2,6 +2,7 @@
 #pragma once
 #include "snap.h"
 #include <memory>
+#include <cstdio>
 #include <functional>
 #include <unistd.h>
 #include <sys/stat.h>
@@ -36,6 +37,11 @@ template <class F> Outcome guarded(F&& f, std::string* what = nullptr) {
     catch (const std::exception& e) { if (what) *what = e.what(); return STD_EXCEPTION; }
     catch (...) { if (what) *what = "?"; return UNKNOWN_EXCEPTION; }
 }
+
+// What a destination holds BEFORE a save is an input of the save. The harness decides it everywhere: a fresh (absent) destination, or, where the
+// property is about the bytes of the saved file (C03, C04, C14), an existing file that is longer than what will be written.
+inline void freshDestination(const std::string& p) { ::unlink(p.c_str()); }
+inline void longerDestination(const std::string& p, size_t atLeast, char fill) { FILE* f = fopen(p.c_str(), "wb"); if (!f) return; std::string junk(atLeast + 1031, fill); fwrite(junk.data(), 1, junk.size(), f); fclose(f); }
 
 struct World {
     std::unique_ptr<C3D> c;
